@@ -212,14 +212,23 @@ func editCfg(c J) J {
 // every fault outcome (or not at all); then the default run and the no-op run.
 func chainScenarios(yield func(any)) {
 	mkEnts := func() []entitySpec {
-		algs := []string{"P-256", "P-384", "brainpoolP256r1", "P-224"}
+		algs := []string{"P-256", "P-384", "brainpoolP256r1", "P-224", "RSA-1024", "RSA-1024"}
+		sigFor := func(issuerAlg string) string {
+			if isRsaName(issuerAlg) {
+				return "RSAwithSHA256"
+			}
+			return "ECDSAwithSHA256"
+		}
+		rootAlg, midAlg := choose(algs), choose(algs)
 		ents := []entitySpec{
-			{alias: "root", path: "root.yaml", issuer: -1, cfg: J{"version": 1, "subject": "CN=Root " + fmt.Sprint(rng.Intn(1000)) + ",O=Chain", "keyAlgorithm": choose(algs)}},
-			{alias: "mid", path: "ca/mid.yaml", issuer: 0, cfg: J{"version": 1, "subject": "CN=Mid,O=Chain", "issuer": "root", "keyAlgorithm": choose(algs),
+			{alias: "root", path: "root.yaml", issuer: -1, cfg: J{"version": 1, "subject": "CN=Root " + fmt.Sprint(rng.Intn(1000)) + ",O=Chain", "keyAlgorithm": rootAlg,
+				"signatureAlgorithm": sigFor(rootAlg)}},
+			{alias: "mid", path: "ca/mid.yaml", issuer: 0, cfg: J{"version": 1, "subject": "CN=Mid,O=Chain", "issuer": "root", "keyAlgorithm": midAlg,
+				"signatureAlgorithm": sigFor(rootAlg),
 				"extensions": []J{{"authorityKeyIdentifier": J{"content": J{"id": "hash"}}}, {"subjectKeyIdentifier": J{"content": "hash"}}}}},
-			{alias: "leaf", path: "ca/users/leaf.yml", issuer: 1, cfg: J{"version": 1, "subject": "CN=Leaf,O=Chain", "issuer": "mid",
+			{alias: "leaf", path: "ca/users/leaf.yml", issuer: 1, cfg: J{"version": 1, "subject": "CN=Leaf,O=Chain", "issuer": "mid", "signatureAlgorithm": sigFor(midAlg),
 				"extensions": []J{{"authorityKeyIdentifier": J{"content": J{"id": "hash"}}}}}},
-			{alias: "leaf2", path: "leaf2.json", issuer: 0, cfg: J{"version": 1, "subject": "CN=Leaf Two", "issuer": "root"}},
+			{alias: "leaf2", path: "leaf2.json", issuer: 0, cfg: J{"version": 1, "subject": "CN=Leaf Two", "issuer": "root", "signatureAlgorithm": sigFor(rootAlg)}},
 		}
 		return ents
 	}
